@@ -63,6 +63,7 @@ static void build_wrapped(Tape &t, Wrapped &w, size_t max_data) {
 		std::vector<dg::Seg> segs;
 		int n = (int) t.range(1, 2);
 		for (int i = 0; i < n; i++) segs.push_back(dg::Seg{(int) t.range(0, 8), (size_t) t.range(0, max_data / 2), t.bits64(), (size_t) t.range(1, 40), (size_t) t.range(1, 60)});
+		if (t.range(0, 3) == 0) segs.push_back(dg::Seg{9, 0, 0, 1, 0}); // Adler-32 low half exactly 0 at the end of the data
 		dg::expand(segs, w.data);
 		if (src == 1) {
 			igz::ZDefOpts zo;
